@@ -241,7 +241,7 @@ impl<'a> vstd::std_specs::convert::FromSpecImpl<DataRef<'a>> for Data {
         r@.len() >= 14 ==> res is Ok && res->Ok_0.p() == cell_pos(r@),
         //# C02,C10.number_value
         r@.len() >= 14 ==> res is Ok && res->Ok_0.v() == wrap_f64(f64_of_bits(u64_at(r@, 6)), fmt_at(formats@, cell_ixfe(r@)), is_1904),
-//@@ before /let row = /
+//@@ body
     proof { lemma_le_at(r@, 0); lemma_le_at(r@, 2); lemma_le_at(r@, 4); lemma_le_at(r@, 6); assert(r@.subrange(0, r@.len() as int) =~= r@); }
 //@@ end
 
@@ -261,7 +261,7 @@ impl<'a> vstd::std_specs::convert::FromSpecImpl<DataRef<'a>> for Data {
         r@.len() >= 8 && res is Ok ==> res->Ok_0.p() == cell_pos(r@),
         //# C02.boolerr_value
         r@.len() >= 8 ==> match bes_value(r@) { Some(d) => res is Ok && res->Ok_0.v() == d, None => res is Err },
-//@@ before /let row = /
+//@@ body
     proof { lemma_le_at(r@, 0); lemma_le_at(r@, 2); assert(r@.subrange(0, r@.len() as int) =~= r@); }
 //@@ end
 
@@ -276,10 +276,10 @@ impl<'a> vstd::std_specs::convert::FromSpecImpl<DataRef<'a>> for Data {
         r@.len() >= 10 ==> res is Ok && res->Ok_0.p() == cell_pos(r@),
         //# C02,C10.rk_value
         r@.len() >= 10 ==> res is Ok && res->Ok_0.v() == rk_value(r@.subrange(6, 10), fmt_at(formats@, cell_ixfe(r@)), is_1904),
-//@@ before /let row = /
+//@@ body
     proof {
         lemma_le_at(r@, 0); lemma_le_at(r@, 2); assert(r@.subrange(0, r@.len() as int) =~= r@);
-        assert(r@.subrange(4, 10).subrange(2, 6) =~= r@.subrange(6, 10));
+        if r@.len() >= 10 { assert(r@.subrange(4, 10).subrange(2, 6) =~= r@.subrange(6, 10)); }
     }
 //@@ end
 
@@ -299,7 +299,7 @@ pub open spec fn labelsst_isst(r: Seq<u8>) -> int { u32_at(r, 6) }
             && res->Ok_0->Some_0.v() == Data::String(strings@[labelsst_isst(r@)]),
         //# C02.labelsst_empty_is_no_cell
         r@.len() >= 10 && !(labelsst_isst(r@) < strings@.len() && strings@[labelsst_isst(r@)]@.len() > 0) ==> res is Ok && res->Ok_0 is None,
-//@@ before /let row = /
+//@@ body
     proof { lemma_le_at(r@, 0); lemma_le_at(r@, 2); lemma_le_at(r@, 6); assert(r@.subrange(0, r@.len() as int) =~= r@); }
 //@@ end
 
@@ -478,7 +478,7 @@ pub open spec fn mulrk_cell_ok(r: Seq<u8>, formats: Seq<CellFormat>, is_1904: bo
             assert(rk@.subrange(2, 6) =~= r@.subrange(6 + 6 * k, 10 + 6 * k));
             assert(u16_at(rk@, 0) == u16_at(r@, 4 + 6 * k));
         }
-//@@ after /col \+= 1;/
+//@@ after /cells\.push\([^;]*;/
         proof {
             assert(cells@.subrange(0, c0.len() as int) =~= c0);
             k = k + 1;
@@ -528,6 +528,21 @@ proof fn lemma_rest(rec: Record)
 {
 }
 
+proof fn lemma_rest_continue(s1: Record, s2: Record)
+    requires s1.data@.len() == 0, conts(s1).len() > 0, s2.data == conts(s1)[0], conts(s2) == conts(s1).skip(1),
+    ensures rest(s2) == rest(s1),
+{
+    assert(flat(conts(s1)) == conts(s1)[0]@ + flat(conts(s1).skip(1)));
+    assert(rest(s1) =~= flat(conts(s1)));
+}
+proof fn lemma_rest_split(s2: Record, s3: Record, l: int, base: Seq<u8>, a: int)
+    requires 0 <= l <= s2.data@.len(), s3.data@ == s2.data@.skip(l), conts(s3) == conts(s2), 0 <= a, a + l <= base.len(), rest(s2) == base.skip(a),
+    ensures rest(s3) == base.skip(a + l),
+{
+    assert(rest(s3) =~= rest(s2).skip(l));
+    assert(base.skip(a).skip(l) =~= base.skip(a + l));
+}
+
 // TRUSTED: std::cmp::min on usize returns the smaller argument (core::cmp documentation)
 pub uninterp spec fn min_spec<T>(a: T, b: T) -> T;
 pub assume_specification<T: Ord>[ std::cmp::min::<T> ](a: T, b: T) -> (r: T)
@@ -573,23 +588,23 @@ proof fn lemma_frame_split(s: Seq<u8>)
 //@@ body
     let ghost len0 = len as int;
     let ghost me0 = *self;
-    proof { assert(rest(me0).skip(0) =~= rest(me0)); }
+    let ghost base = rest(me0);
+    proof { assert(base.skip(0) =~= base); }
 //@@ before /while len/
     #[verifier::loop_isolation(false)]
 //@@ loop 0
         invariant
             self.typ == me0.typ,
             0 <= len <= len0,
-            rest_len(*self) + (len0 - len) == rest_len(me0),
-            rest(*self) =~= rest(me0).skip(len0 - len),
+            len0 - len <= base.len(),
+            rest(*self) == base.skip(len0 - len),
         decreases len, conts(*self).len(),
 //@@ before /if self\.data\.is_empty/
             let ghost s1 = *self;
 //@@ before /let l = /
             let ghost s2 = *self;
             proof {
-                lemma_rest(s1); lemma_rest(s2);
-                if s1.data@.len() == 0 { assert(rest(s2) =~= rest(s1)); } else { assert(s2 == s1); }
+                if s1.data@.len() == 0 { lemma_rest_continue(s1, s2); } else { assert(s2 == s1); }
             }
 //@@ after /let l = [^;]*;/
             proof { axiom_min_usize(len, self.data@.len() as usize); }
@@ -597,8 +612,8 @@ proof fn lemma_frame_split(s: Seq<u8>)
             proof {
                 assert(self.data@ =~= s2.data@.skip(l as int));
                 assert(conts(*self) == conts(s2));
-                assert(rest(*self) =~= rest(s2).skip(l as int));
-                assert(rest(s2).skip(l as int) =~= rest(me0).skip(len0 - len));
+                assert(rest(s2).len() == base.len() - (len0 - (len + l)));
+                lemma_rest_split(s2, *self, l as int, base, len0 - (len + l));
             }
 //@@ end
 //@@ endimpl
@@ -621,6 +636,20 @@ impl<'a> vstd::std_specs::iter::IteratorSpecImpl for RecordIter<'a> {
     open spec fn decrease(&self) -> Option<nat> { None }
     open spec fn peek(&self, i: int) -> Option<Result<Record<'a>, XlsError>> { None }
 }
+proof fn lemma_next_step(s0: Seq<u8>, pre: Seq<u8>, c0: Seq<&[u8]>, st: Seq<u8>, chunk: &[u8], tail: Seq<u8>)
+    requires
+        s0 == pre + cont_frames(c0) + st,
+        st.len() >= 4, u16_at(st, 0) == 0x3C, st.len() >= 4 + u16_at(st, 2),
+        chunk@ == st.subrange(4, 4 + u16_at(st, 2)),
+        tail == st.subrange(4 + u16_at(st, 2), st.len() as int),
+    ensures
+        s0 == pre + cont_frames(c0.push(chunk)) + tail,
+{
+    lemma_frame_split(st);
+    lemma_cont_frames_push(c0, chunk);
+    assert(pre + cont_frames(c0) + (frame(0x3C, chunk@) + tail) =~= pre + (cont_frames(c0) + frame(0x3C, chunk@)) + tail);
+}
+
 //@@ impl src/xls.rs "Iterator for RecordIter<'a>"
 //@@ item src/xls.rs impl_type "Iterator for RecordIter<'a>::type Item"
 //@@ fn src/xls.rs "Iterator for RecordIter<'a>::next" props=C02 entry ret=res
@@ -654,7 +683,6 @@ impl<'a> vstd::std_specs::iter::IteratorSpecImpl for RecordIter<'a> {
             && (res matches Some(Ok(_)) ==> final(self).s().len() + 4 <= old(self).s().len()),
 //@@ body
     let ghost s0 = self.stream@;
-//@@ before /let t = /
     proof { lemma_le_at(s0, 0); lemma_le_at(s0, 2); assert(s0.subrange(0, s0.len() as int) =~= s0); }
 //@@ after /let d = [^;]*;/
     proof {
@@ -668,7 +696,7 @@ impl<'a> vstd::std_specs::iter::IteratorSpecImpl for RecordIter<'a> {
             #[verifier::loop_isolation(false)]
 //@@ loop 0
                 invariant
-                    s0 =~= frame(t as int, d@) + cont_frames(cont@) + self.stream@,
+                    s0 == frame(t as int, d@) + cont_frames(cont@) + self.stream@,
                     self.stream@.len() <= next@.len(),
                     cont@.len() == 0 ==> self.stream@ == next@,
                 decreases self.stream@.len(),
@@ -678,13 +706,11 @@ impl<'a> vstd::std_specs::iter::IteratorSpecImpl for RecordIter<'a> {
                 proof { lemma_le_at(st, 0); lemma_le_at(st, 2); }
 //@@ after /self\.stream = sp\.1;/
                 proof {
-                    lemma_frame_split(st);
                     let chunk = cont@.last();
                     assert(cont@ == c0.push(chunk));
                     assert(chunk@ =~= st.subrange(4, 4 + u16_at(st, 2)));
                     assert(self.stream@ =~= st.subrange(4 + u16_at(st, 2), st.len() as int));
-                    lemma_cont_frames_push(c0, chunk);
-                    assert(s0 =~= frame(t as int, d@) + cont_frames(cont@) + self.stream@);
+                    lemma_next_step(s0, frame(t as int, d@), c0, st, chunk, self.stream@);
                 }
 //@@ end
 //@@ endimpl
@@ -809,6 +835,55 @@ pub open spec fn not_nul(c: char) -> bool { c != '\0' }
 //@@ before /Ok\(\(pos, /
     proof { assert(name@ == name0.filter(|c: char| not_nul(c))); }
 //@@ end
+
+// =====================================================================================================
+// Label (BIFF5-style inline string cell)
+// =====================================================================================================
+/// [MS-XLS] 2.5.294 XLUnicodeString: cch (2 bytes), then in BIFF8 a flags byte whose bit 0 is fHighByte, then the characters
+pub open spec fn xl_string_chars(d: Seq<u8>, encoding: XlsEncoding, biff: Biff) -> Seq<char> {
+    if biff is Biff8 { decoded_chars(encoding, d.skip(3), u16_at(d, 0), Some(d[2] & 1 != 0)) }
+    else { decoded_chars(encoding, d.skip(2), u16_at(d, 0), None) }
+}
+
+//@@ fn src/xls.rs parse_string props=C02 entry ret=res
+//@@ sig
+    ensures
+        //# C02.string_len_guard
+        r@.len() < 4 <==> res is Err,
+        //# C02.string_len_err
+        r@.len() < 4 ==> is_len_err(res, 4, r@.len() as int),
+        //# C02.string_value
+        res is Ok ==> res->Ok_0@ == xl_string_chars(r@, *encoding, biff),
+//@@ body
+    proof { lemma_le_at(r@, 0); assert(r@.subrange(0, r@.len() as int) =~= r@); }
+//@@ before /let mut s = /
+    proof { assert(r@.subrange(start as int, r@.len() as int) =~= r@.skip(start as int)); }
+//@@ end
+
+//@@ fn src/xls.rs parse_label props=C02 entry ret=res
+//@@ sig
+    ensures
+        //# C02.label_len_guard
+        r@.len() < 10 <==> res is Err,
+        //# C02.label_len_err
+        r@.len() < 6 ==> is_len_err(res, 6, r@.len() as int),
+        //# C02.label_pos
+        res is Ok ==> res->Ok_0 is Some && res->Ok_0->Some_0.p() == cell_pos(r@),
+        //# C02.label_value
+        res is Ok ==> res->Ok_0 is Some && res->Ok_0->Some_0.v() is String
+            && res->Ok_0->Some_0.v()->String_0@ == xl_string_chars(r@.skip(6), *encoding, biff),
+//@@ body
+    proof {
+        lemma_le_at(r@, 0); lemma_le_at(r@, 2); lemma_le_at(r@, 4); assert(r@.subrange(0, r@.len() as int) =~= r@);
+        assert(r@.subrange(6, r@.len() as int) =~= r@.skip(6));
+    }
+//@@ end
+
+// ---- witnesses: every `requires` of this unit is satisfiable
+proof fn witness_rk_num() {
+    let rk = seq![0u8, 0u8, 0u8, 0u8, 0xF0u8, 0x3Fu8];
+    assert(rk.len() == 6);
+}
 
 } // verus!
 fn main() {}
